@@ -172,6 +172,21 @@ def run_contents(cfg, out):
                 run.c.inc("crafted_payloads")
                 n += 2
             w.step(3 + size // run.C.Packet.MAX_FRAGMENT_SIZE)
+        # broadcast-like bursts: many DIFFERENT fragmented payloads of the SAME length handed to send() within one tick by an
+        # application that keeps no reference to any of them (each new payload is likely to be allocated where an earlier one
+        # was); enough of them, in several rounds, that the reuse of a freed block does not depend on the allocator's mood
+        P_ = run.C.Packet
+        for _round in range(6):
+            for side in ("client", "server"):
+                ep = c if side == "client" else run.sconn(c)
+                if ep is None or not run.open(c):
+                    continue
+                size = r.choice([P_.MAX_PAYLOAD_SIZE + 1, 2 * P_.MAX_FRAGMENT_SIZE + 11, 3000, 3 * P_.MAX_FRAGMENT_SIZE + 5])
+                for _k in range(8):
+                    run.app.send(ep, side, size, -1, with_cb=False, keep_payload=False)
+                    n += 1
+                run.c.inc("same_length_bursts_of_eight_without_references")
+            w.step(12)
         w.net.heal()
         healed = run.settle([c], min_ticks=40, horizon=30.0)
         context_check(run, [c])
@@ -361,7 +376,7 @@ def finish(tier, seed, results):
     inconclusive = []
     need(m["counters"], ["delivered_to_server", "delivered_to_client", "wire_app_messages", "wire_fragments", "wire_fragment_sets_complete",
                          "permutations_delivered", "oversize_sends", "refusals_expected", "crafted_payloads", "reassembly_contexts_expired",
-                         "net_duplicated_c2s", "net_lost_s2c", "mtus_swept"], inconclusive)
+                         "net_duplicated_c2s", "net_lost_s2c", "mtus_swept", "same_length_bursts_of_eight_without_references"], inconclusive)
     if m["counters"].get("perm_capture_mismatch"):
         inconclusive.append("permutation scenario could not capture the fragments of %d messages" % m["counters"]["perm_capture_mismatch"])
     cov = {
